@@ -49,7 +49,10 @@ def error_msg(msg, filltext=None):
     if filltext is not None and filltext > 0:
         msg = textwrap.fill(msg, width=filltext - len(_prefix))
     msg = textwrap.indent(msg, _prefix, lambda line: True)
-    print(msg, file=sys.stderr)
+    # (with the standard error closed `print` would use the standard
+    # output, where the formula goes)
+    if sys.stderr is not None:
+        print(msg, file=sys.stderr)
 
 
 class InternalBug(Exception):
